@@ -219,6 +219,7 @@ func Load(repoDir, tags, goos string) (*Prog, error) {
 	for _, pkg := range p.PkgList {
 		normalizeIterCalls(pkg)
 	}
+	registerErrPredicates(p)
 	for _, pkg := range p.PkgList {
 		for _, f := range pkg.Syntax {
 			for _, d := range f.Decls {
